@@ -46,8 +46,22 @@ Record config := mkConfig {
   c_faults : hookname -> nat -> bool;        (* this hook invocation raises *)
   c_hook_cleanups : hookname -> nat -> list (nat * bool); (* cleanups the hook registers: (id, raises) *)
   c_wip : nat;                               (* the tag "wip" *)
-  c_cont : bool                              (* Scenario.continue_after_failed_step *)
+  c_cont : bool;                             (* Scenario.continue_after_failed_step *)
+  c_excl : nat -> bool                       (* explicit exclusion: the feature's before_feature hook calls
+                                                element.skip() on every element that carries such a tag;
+                                                inside a feature: the exclusion tags that are in force *)
 }.
+
+(* should_skip: skip() marks the element and everything inside it, i.e. the elements whose
+   effective tags contain an exclusion tag *)
+Definition excluded (cfg : config) (eff : list nat) : bool := existsb (c_excl cfg) eff.
+
+(* Scenario.should_run / Rule.should_run: not should_skip and selected by the tag expression *)
+Definition sel (cfg : config) (eff : list nat) : bool := c_expr cfg eff && negb (excluded cfg eff).
+
+Definition set_excl (cfg : config) (x : nat -> bool) : config :=
+  mkConfig (c_dry cfg) (c_stop cfg) (c_show_skipped cfg) (c_expr cfg) (c_hooks cfg) (c_faults cfg)
+           (c_hook_cleanups cfg) (c_wip cfg) (c_cont cfg) x.
 
 (* ------------------------------------------------------------------ events *)
 Inductive fevent :=
@@ -228,7 +242,7 @@ Definition run_scenario (cfg : config) (st : rstate) (id : nat) (all_steps : lis
   : rstate * scen_res * bool * list event :=
   let dry := c_dry cfg in
   let skip_untested0 := aborted st in
-  let run_sc := c_expr cfg eff in
+  let run_sc := sel cfg eff in
   let st0 := push st in
   let hooks_called := negb dry && run_sc in
   let '(st1, hf, ev_before) :=
@@ -387,6 +401,10 @@ Fixpoint run_sitems (cfg : config) (st : rstate) (bg : list step) (anc : list na
 Definition opt_steps (o : option (list step)) : list step :=
   match o with Some l => l | None => [] end.
 
+(* Rule.should_run(config): not should_skip and should_run_with_tags *)
+Definition rule_runs (cfg : config) (anc : list nat) (r : rule) : bool :=
+  rule_should_run cfg anc r && negb (excluded cfg (r_tags r ++ anc)).
+
 (* ------------------------------------------------------------------ Rule.run *)
 (* feature_has_bg: the rule gets a default Background when the feature has one *)
 Definition run_rule (cfg : config) (st : rstate) (r : rule) (anc : list nat)
@@ -394,7 +412,7 @@ Definition run_rule (cfg : config) (st : rstate) (r : rule) (anc : list nat)
   : rstate * rule_res * bool * list event :=
   let st0 := push st in
   let eff := r_tags r ++ anc in
-  let should_run := rule_should_run cfg anc r in
+  let should_run := rule_runs cfg anc r in
   let hooks_called := negb (c_dry cfg) && should_run in
   let '(st1, hf, ev_before) :=
     if hooks_called then
@@ -466,18 +484,29 @@ Fixpoint run_fitems (cfg : config) (st : rstate) (bg : list step) (has_bg : bool
         (st2, res :: rs, fld || f2, ev ++ ev2)
   end.
 
+(* the configuration the items of a feature run under: the exclusions are in force once the
+   before_feature hook has been called (hooks are called, and the hook is defined) *)
+Definition items_cfg (cfg : config) (hooks_called : bool) : config :=
+  set_excl cfg (fun t => hooks_called && c_hooks cfg HBeforeFeature && c_excl cfg t).
+
+(* Feature.should_run() after the hooks: not should_skip, and what the tags said before *)
+Definition feature_runs (cfg : config) (hooks_called : bool) (f : feature) : bool :=
+  feature_should_run cfg f && negb (excluded (items_cfg cfg hooks_called) (f_tags f)).
+
 Definition run_feature (cfg : config) (st : rstate) (f : feature)
   : rstate * feat_res * bool * list event :=
   let st0 := push st in
   let eff := f_tags f in
-  let should_run := feature_should_run cfg f in
-  let hooks_called := negb (c_dry cfg) && should_run in
+  let hooks_called := negb (c_dry cfg) && feature_should_run cfg f in
   let '(st1, hf, ev_before) :=
     if hooks_called then
       let '(sa, b1, e1) := run_tag_hooks cfg st0 HBeforeTag (f_tags f) in
       let '(sb, b2, e2) := run_hook cfg sa HBeforeFeature (f_id f) in
       (sb, b1 || b2, e1 ++ e2)
     else (st0, false, []) in
+  (* RE-EVALUATE SHOULD-RUN STATE: the before_feature hook, when it ran, has excluded what it excludes *)
+  let cfgi := items_cfg cfg hooks_called in
+  let should_run := feature_runs cfg hooks_called f in
   let skip_untested := if hooks_called then hf || aborted st1 else aborted st in
   let has_bg := match f_bg f with Some _ => true | None => false end in
   let shown := should_run || c_show_skipped cfg in
@@ -487,7 +516,7 @@ Definition run_feature (cfg : config) (st : rstate) (f : feature)
          (if has_bg then [EFmt (FBackground (map st_id (opt_steps (f_bg f))))] else [])
     else [] in
   let bg := opt_steps (f_bg f) in
-  let '(st2, rs, items_failed, ev_items) := run_fitems cfg st1 bg has_bg eff (f_items f) skip_untested in
+  let '(st2, rs, items_failed, ev_items) := run_fitems cfgi st1 bg has_bg eff (f_items f) skip_untested in
   let ov1 : option status :=
     match f_items f with [] => if should_run then None else Some skipped | _ => None end in
   let '(st3, hf2, ev_after) :=
